@@ -205,6 +205,71 @@ func RecScenarios(tier string) []*Scenario {
 		n++
 		out = append(out, buildRecNamed(fmt.Sprintf("%05d", n), nm.name, nm.under, nm.noRT))
 	}
+	// every self-referential named type R = w(R) for constructor words w of length <=2 (thorough 3) over
+	// {pointer, slice, array, map value}; words of arrays only have infinite size and are skipped
+	type ctor struct {
+		name string
+		mk   func(x *space.Ty) *space.Ty
+	}
+	ctors := []ctor{
+		{"ptr", func(x *space.Ty) *space.Ty { return space.P(x) }},
+		{"slice", func(x *space.Ty) *space.Ty { return space.S(x) }},
+		{"array", func(x *space.Ty) *space.Ty { return space.A(2, x) }},
+		{"mapval", func(x *space.Ty) *space.Ty { return space.M(tStr, x) }},
+	}
+	maxLen := 2
+	if tier == "thorough" {
+		maxLen = 3
+	}
+	var words [][]ctor
+	var gen func(w []ctor)
+	gen = func(w []ctor) {
+		if len(w) > 0 {
+			words = append(words, append([]ctor{}, w...))
+		}
+		if len(w) == maxLen {
+			return
+		}
+		for _, c := range ctors {
+			gen(append(w, c))
+		}
+	}
+	gen(nil)
+	for _, w := range words {
+		onlyArr, onlyPtr := true, true
+		var names []string
+		for _, c := range w {
+			onlyArr = onlyArr && c.name == "array"
+			onlyPtr = onlyPtr && c.name == "ptr"
+			names = append(names, c.name)
+		}
+		if onlyArr {
+			continue
+		}
+		w := w
+		for _, pos := range []string{"top", "field"} {
+			n++
+			sc := buildRecNamed(fmt.Sprintf("%05d", n), "self-word:"+strings.Join(names, ">")+"@"+pos, func(self *space.Ty) *space.Ty {
+				t := self
+				for i := len(w) - 1; i >= 0; i-- {
+					t = w[i].mk(t)
+				}
+				return t
+			}, true)
+			_ = onlyPtr
+			if pos == "field" {
+				id := fmt.Sprintf("%05d", n)
+				src, dst := sc.Methods[0].M.Src, sc.Methods[0].M.Dst
+				hs := &space.Decl{Pkg: "in", Name: "HW" + id, Under: space.St(f("A", tInt), f("R", src))}
+				ht := &space.Decl{Pkg: "out", Name: "HW" + id, Under: space.St(f("A", tInt), f("R", dst))}
+				sc.Decls = append(sc.Decls, hs, ht)
+				mm := &model.Method{Name: "Convert", Src: space.N(hs), Dst: space.N(ht), Fields: map[string]*model.FieldCfg{}}
+				sc.Conv.Methods = []*model.Method{mm}
+				sc.Methods = []*ScMethod{{Name: "Convert", Params: "source " + space.N(hs).Go("conv"), Result: space.N(ht).Go("conv"), M: mm}}
+			}
+			out = append(out, sc)
+		}
+	}
 	// mutually recursive named non-struct types: type A op1(B); type B op2(A) (and 3-cycles in the thorough tier),
 	// as the method's own pair and as a struct field
 	type mop struct {
@@ -217,6 +282,8 @@ func RecScenarios(tier string) []*Scenario {
 		{"ptr", func(x *space.Ty) *space.Ty { return space.P(x) }},
 		{"array", func(x *space.Ty) *space.Ty { return space.A(2, x) }},
 		{"sliceptr", func(x *space.Ty) *space.Ty { return space.S(space.P(x)) }},
+		{"arrayptr", func(x *space.Ty) *space.Ty { return space.A(2, space.P(x)) }},
+		{"arrayslice", func(x *space.Ty) *space.Ty { return space.A(1, space.S(x)) }},
 	}
 	var cycles [][]mop
 	for _, a := range mops {
